@@ -135,6 +135,11 @@ def c_getdt(ctx, it, cfg):
     frame(ctx, 'self', o, pre, modifies=['maxRatio'])
     unchanged(ctx, 'arg:growth', s_g, growth)
     ctx.prove('canary/half-width', eq(res, currDT), expect='refuted')
+    # a later call WITHOUT a fraction uses the documented default 0.4, whatever fraction an earlier call was given
+    res2 = o.getDTEuler(currDT, growth, d)
+    ctx.prove('default-fraction-after-an-explicit-one/limit-bounds-every-relevant-class',
+              implies(and_(rel(j), not_(eq(growth.get(j), 0))), and_(le(res2 * absv(growth.get(j)), Fraction(2, 5) * width), gt(res2, 0))), inst=[j, j - d])
+    exists(ctx, 'default-fraction-after-an-explicit-one/limit-attained-or-current-dt', 0, bins, lambda jj: and_(rel(jj), eq(res2 * absv(growth.get(jj)), Fraction(2, 5) * width)), wit, alt=eq(res2, currDT))
 
 
 @REG.contract('getDissolutionIndex', [T + 'getDissolutionIndex', T + 'CumulativeMoment', T + 'ThirdMoment'])
